@@ -320,6 +320,13 @@ def r5_no_partial_objects(run):
              "carries on with a partially built object")
     m = run.model
     funcs = [m.func(q) for q in PARSE_CONE]
+    # ... and any other function of the hand-written modules that wraps a
+    # parse call in a handler
+    from ..tables import schema_modules
+    skip = set(schema_modules(m))
+    have = {f.qual for f in funcs}
+    funcs += [f for q, f in sorted(m.funcs.items())
+              if f.module not in skip and f.qual not in have]
     n = 0
     for fi in funcs:
         for hi in excflow.handlers_of(fi, m):
@@ -335,7 +342,11 @@ def r5_no_partial_objects(run):
             broad = (not hi.caught) or any(c in ("Exception", "BaseException",
                                                  "ParseError", "SyntaxError",
                                                  "DefusedXmlException",
-                                                 "EntitiesForbidden")
+                                                 "EntitiesForbidden",
+                                                 "DTDForbidden",
+                                                 "ExternalReferenceForbidden",
+                                                 "NotSupportedError",
+                                                 "ValueError")
                                            for c in hi.caught)
             if not broad:
                 continue
